@@ -118,3 +118,124 @@ Theorem C05_client_example :
     client_disconnects cex_cfg (client_init StsState.sts_init) cex_history = Ok true.
 Proof. exact client_example. Qed.
 Print Assumptions C05_client_example.
+
+(* ---- the same at the level of BYTES ON THE SOCKET (capstone; Model/React.v) ----
+   `React.react cfg rs line` composes, unchanged, the models of the other properties into the
+   client's whole synchronous reaction to one raw line as ReadString('\n') returns it:
+   ParseEvent (C01/C02 codec model; nil => RParseFail, the connection ends with ErrParseEvent),
+   conversion to the handlers' event, client_step (above), nickCollisionHandler (C17 model),
+   then every resulting event through Client.Send = Event.split with the current
+   MaxEventLength (C11 model) / Client.write, sendLoop's tag gate and Event.Bytes (C03 model).
+   The result is RPanic, RParseFail or RStep state' lines (the raw lines written, in order).
+   RInv = Inv of the tracked state; conn_up = Client.conn is non-nil (as on the path from the
+   socket).  Proofs: Proofs/ReactProofs.v, Proofs/ReactWire.v. *)
+Require React ReactProofs ReactWire Split SplitProofs.
+
+(* no byte string makes the client panic: the reaction is a step or the parse failure *)
+Theorem C05_bytes_total : forall cfg rs line, ReactProofs.RInv rs -> ReactProofs.conn_up cfg ->
+  React.react cfg rs line <> React.RPanic.
+Proof. exact ReactProofs.react_total. Qed.
+Print Assumptions C05_bytes_total.
+
+(* ... and whenever it returns a step, on any bytes and any configuration, the tracked state
+   is structurally consistent again *)
+Theorem C05_bytes_inv : forall cfg rs line rs' outs, ReactProofs.RInv rs ->
+  React.react cfg rs line = React.RStep rs' outs -> ReactProofs.RInv rs'.
+Proof. exact ReactProofs.react_inv. Qed.
+Print Assumptions C05_bytes_inv.
+
+(* hence for EVERY sequence of raw lines from a fresh connection: the session runs to its end
+   (all lines read, or a line ParseEvent rejects, or an ERROR event), never panics, and the
+   state is consistent *)
+Theorem C05_bytes_all_histories : forall cfg sts lines, ReactProofs.conn_up cfg ->
+  exists s, React.react_run cfg (React.react_init sts) 0 lines = Ok s /\ ReactProofs.RInv (React.ss_state s).
+Proof. exact ReactProofs.react_all_histories. Qed.
+Print Assumptions C05_bytes_all_histories.
+
+(* every line the client writes in response - ALL outputs of every reaction: WHO/MODE after our
+   own JOIN, PONG, NICK after 433/436/437, CAP REQ/END, AUTHENTICATE, CTCP replies incl. the
+   pieces of a split one - contains no CR and no LF, is valid UTF-8 and parses back
+   (ParseEvent's model) to an event whose command is one of the seven the reaction uses *)
+Theorem C05_bytes_outputs_wellformed : forall cfg rs line rs' outs, ReactProofs.conn_up cfg ->
+  React.react cfg rs line = React.RStep rs' outs ->
+  Forall (fun l => ~ In 13 l /\ ~ In 10 l /\ Utf8.valid_utf8 l = true /\
+                   exists e', Event.parse_event l = Ok (Some e') /\ In (Event.we_cmd e') ReactWire.reaction_cmds) outs.
+Proof. exact ReactWire.react_outputs_wellformed. Qed.
+Print Assumptions C05_bytes_outputs_wellformed.
+
+(* the first three clauses need no hypothesis at all *)
+Theorem C05_bytes_outputs_no_crlf : forall cfg rs line rs' outs,
+  React.react cfg rs line = React.RStep rs' outs ->
+  Forall (fun l => ~ In 13 l /\ ~ In 10 l /\ Utf8.valid_utf8 l = true) outs.
+Proof. exact ReactWire.react_outputs_no_crlf. Qed.
+Print Assumptions C05_bytes_outputs_no_crlf.
+
+(* liveness at the model level, in bytes: in ANY state of a connection that has not ended, a
+   line that parses to PING with a wire-valid token (valid UTF-8 without CR/LF; spaces, a
+   leading ':' or nothing at all are fine) is answered by exactly one line, and that line
+   parses to PONG with exactly that token *)
+Theorem C05_bytes_ping : forall cfg rs line w, React.rs_closed rs = false ->
+  Event.parse_event line = Ok (Some w) -> Event.we_cmd w = PingNick.s_PING ->
+  PingNickWire.wire_valid (last (Event.we_params w) []) = true ->
+  exists rs' l, React.react cfg rs line = React.RStep rs' [l] /\ React.rs_closed rs' = false /\
+    Event.parse_event l = Ok (Some (Event.mkWEvent None None PingNick.s_PONG [last (Event.we_params w) []])).
+Proof. exact ReactWire.react_ping. Qed.
+Print Assumptions C05_bytes_ping.
+
+(* the line limit: every line of a reaction belongs to an event handed to Send / write (same
+   command, no tags, no source; PRIVMSG / NOTICE only through Client.Send); if that event is a
+   PRIVMSG / NOTICE - the CTCP replies, text chosen by the requester - and its command and
+   target (plus the CTCP frame) fit into MaxEventLength of the state after the step, the line is
+   at most MaxEventLength bytes, or - only when fewer than 4 bytes remain for text - command,
+   target and one character (C11_fits / C11_send_fits) *)
+Theorem C05_bytes_privmsg_fits : forall cfg rs line rs' outs, ReactProofs.conn_up cfg ->
+  React.react cfg rs line = React.RStep rs' outs ->
+  Forall (fun l =>
+    exists o, ReactWire.plain_out o /\ ReactWire.line_of (React.message_tags_on (Cap.st_enabled (ClientStep.cs_cap (React.rs_client rs')))) o l /\
+      (Split.is_msg_cmd (Event.we_cmd (ReactWire.wout_event o)) = true ->
+       (SplitProofs.cmd_target_len (React.to_sevent (ReactWire.wout_event o)) <= Split.max_event_length (ClientStep.cs_state (React.rs_client rs')))%Z ->
+       ReactWire.fits_limit (Split.max_event_length (ClientStep.cs_state (React.rs_client rs')))
+                            (SplitProofs.cmd_target_len (React.to_sevent (ReactWire.wout_event o))) l)) outs.
+Proof. exact ReactWire.react_privmsg_fits. Qed.
+Print Assumptions C05_bytes_privmsg_fits.
+
+(* ... which is about something: a CTCP PING with 720 bytes of text is answered in two NOTICE
+   lines of 392 and 368 bytes (MaxEventLength = 395) *)
+Theorem C05_bytes_fits_example :
+  exists rs' outs, React.react ReactWire.ex_cfg (React.react_init StsState.sts_init) ReactWire.ex_long_ping = React.RStep rs' outs /\
+    Split.max_event_length (ClientStep.cs_state (React.rs_client rs')) = 395%Z /\
+    List.map (@length N) outs = [392; 368]%nat /\
+    Forall (fun l => prefixb (bs "NOTICE alice :" ++ [1] ++ bs "PING lorem") l = true) outs.
+Proof. exact ReactWire.react_fits_example. Qed.
+Print Assumptions C05_bytes_fits_example.
+
+(* one line, one source of output: for every event at most ONE stage of the reaction (state
+   handlers / SASL / CAP / CTCP stage / collision handler) writes anything, so the order of the
+   lines of one reaction is always fixed by one piece of sequential code although the handlers
+   of an event run concurrently *)
+Theorem C05_bytes_single_source : forall cfg cs e cs' couts nouts,
+  ClientStep.client_step (React.rc_client cfg) cs e = Ok (cs', couts) ->
+  React.collide_stage cfg (ClientStep.cs_state cs) e = Ok nouts -> ReactWire.source_of couts nouts.
+Proof. exact ReactWire.react_single_source. Qed.
+Print Assumptions C05_bytes_single_source.
+
+(* non-vacuity: a ten-line raw session (001, 005, JOIN, 353, MODE, CTCP VERSION, PING, NICK,
+   KICK, a NUL byte) with what the client writes for each line and how the session ends *)
+Theorem C05_bytes_example :
+  ReactProofs.conn_up ReactWire.ex_cfg /\
+  exists s, React.react_run ReactWire.ex_cfg (React.react_init StsState.sts_init) 0 ReactWire.ex_lines = Ok s /\
+    React.ss_outs s =
+      [ []; [];
+        [bs "WHO #chan %tacuhnr,1"; bs "MODE #chan"];
+        []; [];
+        [bs "NOTICE alice :" ++ [1] ++ bs "VERSION verif 1.0" ++ [1]];
+        [bs "PONG :tok en"];
+        []; [] ] /\
+    React.ss_end s = React.ParseFailed 9 /\
+    ReactProofs.RInv (React.ss_state s) /\
+    List.map (fun kv => (fst kv, State.c_users (snd kv)))
+             (State.st_channels (ClientStep.cs_state (React.rs_client (React.ss_state s)))) =
+      [(bs "#chan", [bs "carol"; bs "me"])] /\
+    State.st_nick (ClientStep.cs_state (React.rs_client (React.ss_state s))) = bs "me".
+Proof. exact ReactWire.react_session_example. Qed.
+Print Assumptions C05_bytes_example.
